@@ -639,10 +639,10 @@ impl Check for C11 {
         v.push(PhaseSpec { name: "fullparen", cases: p2 + p3, max_bytes: 0, exhaustive: true });
         v.push(PhaseSpec { name: "selftest", cases: 1, max_bytes: 0, exhaustive: true });
         v.push(PhaseSpec { name: "lit-enum", cases: lit_enum_cases().len() as u64, max_bytes: 0, exhaustive: true });
-        v.push(PhaseSpec { name: "literals", cases: tier.pick(16_000, 400_000), max_bytes: 64, exhaustive: false });
+        v.push(PhaseSpec { name: "literals", cases: tier.pick(80_000, 400_000), max_bytes: 64, exhaustive: false });
         v.push(PhaseSpec {
             name: "random",
-            cases: tier.pick(30_000, 1_200_000),
+            cases: tier.pick(150_000, 1_200_000),
             max_bytes: tier.pick(400, 1200) as usize,
             exhaustive: false,
         });
